@@ -555,7 +555,8 @@ class Choices:
         assert c1.index == c2.index
         choices = Choices.to_choices([j for sub in [
             [Choices.vect_intersection(v1, v2)
-             for v2 in c2.valid] for v1 in c1.valid] for j in sub if j])
+             for v2 in c2.valid] for v1 in c1.valid]
+            for j in sub if j is not None])
         return Choices(valid=choices, index=c1.index)
 
     @staticmethod
